@@ -109,7 +109,9 @@ chk("C19", "Precedence: CrossHair confirms over all paths, for each of the 8 opt
     "untouched and share no dict with the result (reachability twin per contract). Non-modification and repeatability: the real map(plot=False) "
     "(thin/thick, resolution int/dict/partial dict/None) and histogram2d(plot=False) run twice on symbolic data with all argument objects "
     "snapshotted (terms, units, names, option fields, dict contents, identities); the second result must be provably equal to the first.",
-    TRUST + " PARTIAL: histogram1d, scatter, plot and every plot=True path go through matplotlib and are not covered.",
+    TRUST + " histogram1d, scatter and plot are run with a recording axes object passed through their public ax= argument (what they hand to "
+    "matplotlib is checked: data, bins/weights precedence, sorting, colour/size; the drawing itself is not). PARTIAL: plot=True paths of "
+    "map/histogram2d, scatter with Array sizes and plot(dict) are not covered.",
     "CrossHair contracts on parse_layer/Layer + symbolic execution of map/histogram2d with argument snapshots", "DESIGN.md section 5")
 
 LOADTXT = ("Bounded symbolic model checking of the real loader: RamsesDataset(...).load() runs on SYMBOLIC RAMSES FILES (ramses/layout.py, written from "
